@@ -285,3 +285,83 @@ Example C04_history_nonvacuous :
   length (hist lb) = 301 /\ hist_u lb = 300 /\ length (ln lb) = 301 /\
   run_trace lb [Undo; Undo] = [([a], true); ([a], false)].
 Proof. split; [repeat constructor | vm_compute; repeat split]. Qed.
+
+(* ------------------------------------------------------------------------------------------ *)
+(* THE MODEL IS THE C TEXT (coq/TrSplice*.v): lbuf_replace of /repo/lbuf.c, the splice that lbuf_edit, lbuf_undo and lbuf_redo go
+   through, translated by tools/c2clite.py (coq/GenCFuncs.v, tools/c2clite.d/55_splice.list) and RUN by the checked semantics of
+   coq/CLite.v.  C04_tr_lbuf_replace: from any memory holding a line buffer whose line table is `ln ul` (TrSpliceAll.lbuf_at: the
+   struct, the pointer array, the ln_glob array, one live block per line, all distinct), for s = NULL or a NUL-terminated text,
+   the translated function returns Ok and the new memory holds the line table of UndoDefs.lbuf_replace ul s pos n_del -- the
+   `replace` of C04_replace_inverse --, the deleted lines' blocks freed, everything outside the buffer untouched, the history cells
+   of the struct (68..74: useq, hist, hist_sz, hist_n, hist_u, useq_zero, useq_last) unchanged.  C04_tr_splice_is_ex: the
+   ln_glob cells and the mark rows of that memory are those of ExDefs.lbuf_replace (the first min(n_del, n_ins) rows inherit
+   ln_glob, the others are cleared; the three-way mark shift and the marks '[' and ']').
+   lbuf_opt / lbuf_edit / lbuf_undo / lbuf_redo themselves stay tied by correspondence (tools/props/c04.py). *)
+From NV Require CLite CLiteProps GenCFuncs TrSpliceMarks TrSpliceAll TrSpliceModels.
+Section C04_translated_splice.
+Import CLite CLiteProps GenCFuncs TrSpliceMarks TrSpliceAll TrSpliceModels.
+Local Open Scope Z_scope.
+
+Theorem C04_tr_lbuf_replace : forall (m : mem) lb blk bln bgl lbs (ul : UndoDefs.lbuf) globs mk cap sv (s : option (list N)) pos nd cap' d fuel,
+  let n := length (UndoDefs.ln ul) in let ni := UndoDefs.linecount s in
+  let need := Z.of_nat n + Z.of_nat ni - Z.of_nat nd in
+  lbuf_at m lb blk bln bgl lbs (UndoDefs.ln ul) globs mk cap ->
+  s_text m (lb :: bln :: bgl :: lbs) sv (txt s) (is_null s) ->
+  (pos + nd <= n)%nat ->
+  Z.of_nat n + Z.of_nat ni <= 2147483647 ->
+  IoDefs.grow (IoDefs.grow_fuel need) need (Z.of_nat cap) = Some cap' -> cap' <= 2147483647 ->
+  Forall (row_fits (Z.of_nat pos) (Z.of_nat nd) (Z.of_nat ni)) mk ->
+  (splice_fuel n ni nd <= fuel)%nat ->
+  exists m' blk' bln' bgl' base,
+    callf cprog fuel (S (S (S d))) F_lbuf_replace [VPtr lb 0; sv; VInt (Z.of_nat pos); VInt (Z.of_nat nd)] m = Ok (VUndef, m')
+    /\ lbuf_at m' lb blk' bln' bgl' (splice lbs (List.seq base ni) pos nd) (UndoDefs.ln (UndoDefs.lbuf_replace ul s pos nd))
+         (splice_globs globs pos nd ni) (splice_marks (is_null s) pos nd ni mk) (Z.to_nat cap')
+    /\ need < cap'
+    /\ (length m <= base)%nat /\ (length m <= length m')%nat
+    /\ (forall c, (c < length m)%nat -> ~ In c (lb :: bln :: bgl :: lbs) -> nth_error m' c = nth_error m c)
+    /\ (forall b, In b (firstn nd (skipn pos lbs)) -> nth_error m' b = Some [])
+    /\ (forall j, (68 <= j)%nat -> nth_error blk' j = nth_error blk j).
+Proof. exact tr_lbuf_replace_undo. Qed.
+Print Assumptions C04_tr_lbuf_replace.
+
+(* the two models of the inserted lines agree: UndoDefs.lines_of = IoDefs.split_lines, and the counts *)
+Theorem C04_tr_splice_is_undo : forall (lb : UndoDefs.lbuf) s pos nd,
+  UndoDefs.ln (UndoDefs.lbuf_replace lb s pos nd) = splice (UndoDefs.ln lb) (IoDefs.split_lines (txt s)) pos nd
+  /\ UndoDefs.linecount s = IoDefs.linecount (txt s).
+Proof. exact splice_is_undo. Qed.
+Print Assumptions C04_tr_splice_is_undo.
+
+(* the texts (with their newline), the ln_glob values and the mark rows that C04_tr_lbuf_replace leaves in memory are those of
+   ExDefs.lbuf_replace *)
+Theorem C04_tr_splice_is_ex : forall (xl : ExDefs.lbuf) s pos nd,
+  (pos + nd <= length (ExDefs.lns xl))%nat -> length (ExDefs.marks xl) = 32%nat ->
+  let xl' := ExDefs.lbuf_replace s pos nd xl in
+  let ni := IoDefs.linecount (txt s) in
+  map addnl (map ExDefs.ltxt (ExDefs.lns xl')) = splice (map addnl (map ExDefs.ltxt (ExDefs.lns xl))) (IoDefs.split_lines (txt s)) pos nd
+  /\ map zgl (ExDefs.lns xl') = splice_globs (map zgl (ExDefs.lns xl)) pos nd ni
+  /\ map fst (ExDefs.marks xl') = splice_marks (is_null s) pos nd ni (map fst (ExDefs.marks xl)).
+Proof. exact splice_is_ex. Qed.
+Print Assumptions C04_tr_splice_is_ex.
+
+(* not vacuous, and the translated function RUNS: the buffer "a\n", "b\n" (capacity 3) of TrSpliceModels.ex_mem, a pure deletion
+   lbuf_replace(lb, NULL, 0, 1) -- what lbuf_undo does to take an inserted line back --: no growth (2 + 0 - 1 < 3), the block of
+   line 0 (G+3) is freed, the pointer of line 1 moves to cell 0, ln_n = 1; the model deletes the same line *)
+Example C04_tr_lbuf_replace_runs :
+  let G := ex_G in
+  let ul := {| UndoDefs.ln := ex_lines; UndoDefs.hist := []; UndoDefs.hist_u := 0; UndoDefs.hist_sz := 0;
+               UndoDefs.useq := 1; UndoDefs.useq_zero := 0; UndoDefs.useq_last := 0 |} in
+  lbuf_at ex_mem G ex_blk (G + 1) (G + 2) [G + 3; G + 4]%nat (UndoDefs.ln ul) [0; 2] (repeat (-1) 32) 3 /\
+  s_text ex_mem [G; G + 1; G + 2; G + 3; G + 4]%nat (VInt 0) (txt None) (is_null None) /\
+  IoDefs.grow (IoDefs.grow_fuel 1) 1 3 = Some 3 /\
+  match callf cprog 38 3 F_lbuf_replace [VPtr G 0; VInt 0; VInt 0; VInt 1] ex_mem with
+  | Ok (v, m') => Some (v, firstn 4 (skipn (G + 1) m'), firstn 4 (skipn 64 (nth G m' [])), length m')
+  | Err _ => None
+  end = Some (VUndef,
+              [ [VPtr (G + 4) 0; VPtr (G + 4) 0; VUndef]; [VInt 2; VInt 2; VUndef]; []; cstr_block (zb [98; 10]%N) ],
+              [VPtr (G + 1) 0; VPtr (G + 2) 0; VInt 1; VInt 3], length ex_mem) /\
+  UndoDefs.ln (UndoDefs.lbuf_replace ul None 0 1) = [[98; 10]]%N /\
+  UndoDefs.ln (UndoDefs.lbuf_replace ul (Some ex_text) 1 1) = [[97; 10]; [120; 10]; [121; 10]]%N.
+Proof.
+  cbv zeta. split; [exact ex_at|]. split; [apply st_null|]. vm_compute. repeat split.
+Qed.
+End C04_translated_splice.
